@@ -74,8 +74,10 @@ func hopByHopHeaders(respHeader http.Header) map[string]struct{} {
 		// Also see net/http/response.go "respExcludeHeader" for additional excluded headers.
 	}
 	// Fields listed in the Connection header field
-	for field := range TrimmedCSVCanonicalSeq(respHeader.Get("Connection")) {
-		m[field] = struct{}{}
+	for _, line := range respHeader.Values("Connection") { // all field lines
+		for field := range TrimmedCSVCanonicalSeq(line) {
+			m[field] = struct{}{}
+		}
 	}
 	return m
 }
